@@ -204,6 +204,15 @@ pub fn run(ctx: &Ctx, rec: &mut Rec) {
                     _ => SE { l: from_pt(&ctx.c, &ctx.c.torque(&ctx.c.neg(&src.m))), m: ctx.c.torque(&ctx.c.neg(&src.m)), class: "planted other-rep of negation" },
                 };
             }
+            // runs of three or four identical items
+            if rep % 5 == 0 && len >= 4 {
+                let run = 3 + rep % 2;
+                let start = rand_range(&mut rng, len - run + 1);
+                let src = items[start].clone();
+                for k in 0..run {
+                    items[start + k] = src.clone();
+                }
+            }
             // commuting partial sums: [.., P, Q, Q, P, ..]
             if rep % 3 == 0 && len >= 6 {
                 let (p, q) = (items[0].clone(), items[1].clone());
